@@ -9,13 +9,25 @@ package mr
 // (or `hang`), goroutines left once every user function has returned, the items handed to the
 // mapper, the values the reducer received, and the start/end history of mapper invocations.
 //
-//   run api=<mr|void|each> n=<items> w=<workers> ctx=<none|can|pre> gp=<k|-> gx=<k|-> gw=<k:ev,…|-> m=<s0>/<s1>/… r=<script>
+//   run api=<mr|void|each|chan|finish|finishvoid> n=<items> w=<workers> ctx=<none|can|pre> gp=<k|-> gx=<k|-> gw=<k:ev,…|-> m=<s0>/<s1>/… r=<script> [co=<k>]
+//
+// api=chan: MapReduceChan with a source the harness owns (a goroutine of the harness runs the scripted generator and
+//   closes the source; no gp).  api=finish: Finish(fns…) with one function per script of m= (actions u/t/y/s/f/p and a
+//   final c<k> = `return error k`; w/gp/gx/gw/r unused: the library chooses WithWorkers(len(fns))).  api=finishvoid:
+//   FinishVoid(fns…) (actions u/t/y/s/f/p).
+// w=<a>[,<b>…]: one WithWorkers option per entry, in this order (the last one wins; entries < 1 are clamped to 1);
+//   w=def: no WithWorkers option at all (defaultWorkers = 16).  The Option values are cached per argument for the life
+//   of the process, so the same closure is applied to many calls.  co=<k>: the WithContext option is inserted at
+//   position k of the option list (default: last).
 //
 // script = actions joined by '.', '-' = empty.  Actions:
 //   w<v> Write(v)      c<k> cancel(error k), c0 = cancel(nil)      p panic
 //   a    read the pipe until it is closed (reducer)                o read one value (reducer)
 //   s    stall until the call has returned to the harness          x cancel the harness context
 //   y    yield the processor a few times
+//   f    run NESTED calls from inside this user function: Finish(a, b) whose two functions rendezvous with each other
+//        (they need two workers of the nested call at the same time), FinishVoid of two functions, and a complete
+//        MapReduce of three items with default options that must return 0+1+2; anything else counts in `nestedbad`
 //   u<ev> wait until event <ev> of ANOTHER user function has happened (or the call has returned):
 //        s<i>/e<i> mapper i started/ended, pm<i> mapper i is about to panic, gt<k> item k was taken from the source,
 //        cbm<i>/cbr (cem<i>/cer) mapper i / the reducer is about to call cancel (cancel has returned), cb/ce any,
@@ -153,12 +165,20 @@ func c10Exec(op []string) string {
 		return "bad-op"
 	}
 	if atomic.LoadInt32(&c10Hangs) >= c10MaxHangs {
-		return "res=skipped left=0 mapped=- reduced=- hist=- stalltimeouts=0 panicked=0 waitsbyret=0"
+		return "res=skipped left=0 mapped=- reduced=- hist=- stalltimeouts=0 panicked=0 waitsbyret=0 nestedbad=0"
 	}
 	cfg := verifh.ParseCfg(strings.Join(op[1:], " "))
 	api := cfg.Str("api", "mr")
 	n := cfg.Int("n", 0)
-	w := cfg.Int("w", 1)
+	var wopts []int
+	if ws := cfg.Str("w", "1"); ws != "def" {
+		for _, x := range strings.Split(ws, ",") {
+			if _, err := strconv.Atoi(x); err != nil {
+				return "bad-op"
+			}
+			wopts = append(wopts, verifh.Atoi(x))
+		}
+	}
 	gp, gx := -1, -1
 	if v := cfg.Str("gp", "-"); v != "-" {
 		gp = verifh.Atoi(v)
@@ -208,7 +228,7 @@ func c10Exec(op []string) string {
 	defer cancelCtx()
 
 	retCh := ev.ch("ret")
-	var stallTimeouts, waitByRet, panicked int32
+	var stallTimeouts, waitByRet, panicked, nestedBad int32
 	stall := func() {
 		select {
 		case <-retCh:
@@ -264,6 +284,8 @@ func c10Exec(op []string) string {
 			endCtx()
 		case a == "y":
 			yield()
+		case a == "f":
+			atomic.AddInt32(&nestedBad, int32(c10Nested()))
 		case a[0] == 'u':
 			wait(a[1:])
 		case a[0] == 't':
@@ -324,6 +346,30 @@ func c10Exec(op []string) string {
 			}
 		}
 	}
+	// one function of Finish / FinishVoid: the script of item i; c<k> = return error k
+	fnRun := func(item int) (err error) {
+		is := strconv.Itoa(item)
+		logf(func() { mapped = append(mapped, item) })
+		ev.fire("s"+is, "s"+is)
+		defer ev.fire("e"+is, "e"+is)
+		for _, a := range ms[item] {
+			switch {
+			case a == "p":
+				atomic.AddInt32(&panicked, 1)
+				ev.fire("pm"+is, "pm"+is, "pm")
+				panic("pm" + is)
+			case a[0] == 'c':
+				k := verifh.Atoi(a[1:])
+				ev.fire("cbm"+is+"_"+strconv.Itoa(k), "cbm"+is, "cb")
+				return c10Err{k}
+			case a[0] == 'w' || a == "x" || a == "a" || a == "o":
+				panic("verif: bad action for Finish " + a)
+			default:
+				common("m"+is, a, nil, nil)
+			}
+		}
+		return nil
+	}
 	reducer := func(pipe <-chan int, wr Writer[int], cancel func(error)) {
 		got := 0
 		recv := func(v int) {
@@ -372,11 +418,61 @@ func c10Exec(op []string) string {
 				resCh <- "panic:" + c10PanicName(p)
 			}
 		}()
-		opts := []Option{WithWorkers(w)}
+		var opts []Option
+		for _, x := range wopts {
+			opts = append(opts, c10WorkersOpt(x))
+		}
 		if mode != "none" {
-			opts = append(opts, WithContext(ctx))
+			co := cfg.Int("co", len(opts))
+			if co < 0 || co > len(opts) {
+				co = len(opts)
+			}
+			opts = append(opts[:co:co], append([]Option{WithContext(ctx)}, opts[co:]...)...)
 		}
 		switch api {
+		case "chan":
+			if gp >= 0 {
+				resCh <- "bad-op"
+				return
+			}
+			src := make(chan int)
+			go func() {
+				defer close(src)
+				gen(src)
+			}()
+			v, err := MapReduceChan[int, int, int](src, mapper, reducer, opts...)
+			ev.fire("ret", "ret")
+			if err != nil {
+				resCh <- "err:" + c10ErrName(err)
+			} else {
+				resCh <- "val:" + strconv.Itoa(v)
+			}
+		case "finish":
+			fns := make([]func() error, n)
+			for i := range fns {
+				i := i
+				fns[i] = func() error { return fnRun(i) }
+			}
+			err := Finish(fns...)
+			ev.fire("ret", "ret")
+			if err != nil {
+				resCh <- "err:" + c10ErrName(err)
+			} else {
+				resCh <- "ok"
+			}
+		case "finishvoid":
+			fns := make([]func(), n)
+			for i := range fns {
+				i := i
+				fns[i] = func() {
+					if err := fnRun(i); err != nil {
+						panic("verif: FinishVoid function returned an error")
+					}
+				}
+			}
+			FinishVoid(fns...)
+			ev.fire("ret", "ret")
+			resCh <- "ok"
 		case "mr":
 			v, err := MapReduce[int, int, int](gen, mapper, reducer, opts...)
 			ev.fire("ret", "ret")
@@ -423,9 +519,80 @@ func c10Exec(op []string) string {
 	defer ev.mu.Unlock()
 	sort.Ints(mapped)
 	sort.Ints(reduced)
-	return fmt.Sprintf("res=%s left=%d mapped=%s reduced=%s hist=%s stalltimeouts=%d panicked=%d waitsbyret=%d", res, left,
+	return fmt.Sprintf("res=%s left=%d mapped=%s reduced=%s hist=%s stalltimeouts=%d panicked=%d waitsbyret=%d nestedbad=%d", res, left,
 		c10Ints(mapped), c10Ints(reduced), c10Join(ev.hist), atomic.LoadInt32(&stallTimeouts), atomic.LoadInt32(&panicked),
-		atomic.LoadInt32(&waitByRet))
+		atomic.LoadInt32(&waitByRet), atomic.LoadInt32(&nestedBad))
+}
+
+// c10WorkersOpt returns THE WithWorkers(x) option of this process: built once per argument and applied to every
+// call that asks for it (an option that kept state between applications would show).
+var (
+	c10OptMu    sync.Mutex
+	c10OptCache = map[int]Option{}
+)
+
+func c10WorkersOpt(x int) Option {
+	c10OptMu.Lock()
+	defer c10OptMu.Unlock()
+	o, ok := c10OptCache[x]
+	if !ok {
+		o = WithWorkers(x)
+		c10OptCache[x] = o
+	}
+	return o
+}
+
+// c10Nested runs independent calls from inside a user function of another call and returns how many of them
+// misbehaved: two functions of one Finish must be able to run at the same time whatever the options of the
+// enclosing call are; a MapReduce with default options must map every item once and return the reducer's sum.
+func c10Nested() (bad int) {
+	a, b := make(chan struct{}), make(chan struct{})
+	meet := func(mine, other chan struct{}) bool {
+		close(mine)
+		select {
+		case <-other:
+			return true
+		case <-time.After(c10HangMax + 2*time.Second): // (the watchdog of the enclosing call fires first: reported as a hang)
+			return false
+		}
+	}
+	var met int32
+	err := Finish(func() error {
+		if meet(a, b) {
+			atomic.AddInt32(&met, 1)
+		}
+		return nil
+	}, func() error {
+		if meet(b, a) {
+			atomic.AddInt32(&met, 1)
+		}
+		return nil
+	})
+	if err != nil || atomic.LoadInt32(&met) != 2 {
+		bad++
+	}
+	var ran int32
+	FinishVoid(func() { atomic.AddInt32(&ran, 1) }, func() { atomic.AddInt32(&ran, 2) })
+	if atomic.LoadInt32(&ran) != 3 {
+		bad++
+	}
+	v, err := MapReduce[int, int, int](func(source chan<- int) {
+		for i := 0; i < 3; i++ {
+			source <- i
+		}
+	}, func(item int, w Writer[int], cancel func(error)) {
+		w.Write(item)
+	}, func(pipe <-chan int, w Writer[int], cancel func(error)) {
+		sum := 0
+		for v := range pipe {
+			sum += v
+		}
+		w.Write(sum)
+	})
+	if err != nil || v != 3 {
+		bad++
+	}
+	return bad
 }
 
 type c10NoWriter struct{}
@@ -454,6 +621,8 @@ func c10Join(xs []string) string {
 
 type c10Cfg struct {
 	api    string
+	ws     string // text of w= if it is not the plain effective count: "def", "0", "-3", "5,2" (w = the effective count)
+	co     int    // position of the WithContext option + 1 (0 = default: last)
 	n, w   int
 	ctx    string
 	gp, gx int
@@ -487,7 +656,254 @@ func (c c10Cfg) String() string {
 	if len(c.gw) > 0 {
 		gw = strings.Join(c.gw, ",")
 	}
-	return fmt.Sprintf("run api=%s n=%d w=%d ctx=%s gp=%s gx=%s gw=%s m=%s r=%s", c.api, c.n, c.w, c.ctx, opt(c.gp), opt(c.gx), gw, m, sc(c.r))
+	ws := strconv.Itoa(c.w)
+	if c.ws != "" {
+		ws = c.ws
+	}
+	line := fmt.Sprintf("run api=%s n=%d w=%s ctx=%s gp=%s gx=%s gw=%s m=%s r=%s", c.api, c.n, ws, c.ctx, opt(c.gp), opt(c.gx), gw, m, sc(c.r))
+	if c.co > 0 && c.ctx != "none" {
+		line += " co=" + strconv.Itoa(c.co-1)
+	}
+	return line
+}
+
+// c10Vary re-expresses the same call through another route of the option / entry-point glue: the same effective
+// worker count written as a clamped (< 1), repeated or default option list, the context option at another position,
+// MapReduceChan instead of MapReduce.  The expected behaviour does not change.
+func c10Vary(r *verifh.Rng, c c10Cfg) c10Cfg {
+	if c.api == "finish" || c.api == "finishvoid" {
+		return c
+	}
+	switch r.Intn(8) {
+	case 0:
+		if c.w == 1 {
+			c.ws = r.PickS("0", "-1", "-7", "4,0", "def,-2")
+			if c.ws == "def,-2" {
+				c.ws = "-2"
+			}
+		}
+	case 1:
+		c.ws = strconv.Itoa(r.Pick(1, 0, 7, 16, -3)) + "," + strconv.Itoa(c.w)
+	case 2:
+		if c.w == 16 {
+			c.ws = "def"
+		}
+	case 3:
+		if c.ctx != "none" {
+			c.co = 1 // WithContext first
+		}
+	case 4, 5:
+		if c.api == "mr" && c.gp < 0 {
+			c.api = "chan"
+		}
+	}
+	return c
+}
+
+// c10Entries enumerates the less travelled entry points and the option glue: Finish / FinishVoid with every mix of
+// nil / error / panic at every position and forced full concurrency (len(fns) functions at the same time),
+// ForEach with forced concurrency, generator panics, a context, the default worker count (cap exactly 16),
+// WithWorkers(<1), option lists, nested calls from inside user functions.
+func c10Entries(r *verifh.Rng) []c10Cfg {
+	var out []c10Cfg
+	it := strconv.Itoa
+	mk := func(api string, n, w int) c10Cfg {
+		c := c10Cfg{api: api, n: n, w: w, ctx: "none", gp: -1, gx: -1}
+		c.m = make([][]string, n)
+		return c
+	}
+	// Finish: n functions, all of them must be able to run at once (each waits until the last one has started)
+	for n := 0; n <= verifh.Scale(5, 7); n++ {
+		all := func(api string) c10Cfg {
+			c := mk(api, n, n)
+			for i := 0; i < n; i++ {
+				c.m[i] = []string{"us" + it(n-1)}
+				if r.Chance(1, 4) {
+					c.m[i] = append(c.m[i], "y")
+				}
+			}
+			return c
+		}
+		out = append(out, all("finish"), all("finishvoid"))
+		for i := 0; i < n; i++ {
+			// function i returns an error / panics once all run; the others return nil, some only after they saw it
+			for _, f := range []string{"c" + it(i+1), "p"} {
+				for _, api := range []string{"finish", "finishvoid"} {
+					if api == "finishvoid" && f != "p" {
+						continue
+					}
+					c := all(api)
+					c.m[i] = append(c.m[i], f)
+					for j := 0; j < n; j++ {
+						if j != i && r.Chance(1, 3) {
+							if f == "p" {
+								c.m[j] = append(c.m[j], "upm"+it(i))
+							} else {
+								c.m[j] = append(c.m[j], "ucbm"+it(i))
+							}
+						}
+					}
+					out = append(out, c)
+				}
+			}
+			// two functions return different errors (either may win), or one errs and one panics; a third one outlives the call
+			if n >= 2 {
+				j := (i + 1 + r.Intn(n-1)) % n
+				c := all("finish")
+				c.m[i] = append(c.m[i], "c"+it(i+1))
+				c.m[j] = append(c.m[j], r.PickS("c"+it(j+1), "p", "ucbm"+it(i)+".c9", "ucbm"+it(i)+".p"))
+				c.m[j] = strings.Split(strings.Join(c.m[j], "."), ".")
+				if n >= 3 {
+					k := (j + 1) % n
+					if k == i {
+						k = (k + 1) % n
+					}
+					if k != i && k != j && !strings.Contains(strings.Join(c.m[j], "."), "p") {
+						c.m[k] = append(c.m[k], "s", r.PickS("y", "c8", "p"))
+					}
+				}
+				out = append(out, c)
+			}
+		}
+	}
+	// functions without any wait (the scheduler decides), errors / panics at random positions
+	for k := verifh.Scale(12, 300); k > 0; k-- {
+		n := r.Range(1, 6)
+		c := mk(r.PickS("finish", "finish", "finishvoid"), n, n)
+		for i := 0; i < n; i++ {
+			switch r.Intn(6) {
+			case 0:
+				if c.api == "finish" {
+					c.m[i] = []string{"c" + it(i+1)}
+				}
+			case 1:
+				c.m[i] = []string{"p"}
+			case 2:
+				c.m[i] = []string{"y"}
+			case 3:
+				c.m[i] = []string{"f"}
+			}
+		}
+		out = append(out, c)
+	}
+	// ForEach: forced concurrency (cap reached exactly), hand-over order, generator panic at every position,
+	// a mapper panic seen by the others, a context that ends
+	for w := 1; w <= 3; w++ {
+		for n := 0; n <= w+2; n++ {
+			c := mk("each", n, w)
+			first := n
+			if w < first {
+				first = w
+			}
+			for j := 0; j < n; j++ {
+				c.m[j] = []string{"y"}
+				if j < first {
+					c.m[j] = []string{"us" + it(first-1)}
+					if n > w {
+						c.m[j] = append(c.m[j], "ts"+it(w))
+					}
+				}
+			}
+			out = append(out, c)
+			for k := 0; k <= n; k++ {
+				// (no waits for mapper starts here: the generator may never hand those items out)
+				d := c10Clone(c)
+				d.gp = k
+				for j := range d.m {
+					d.m[j] = []string{"y"}
+				}
+				out = append(out, d)
+			}
+			if n > 0 {
+				d := c10Clone(c)
+				i := r.Intn(n)
+				d.m[i] = append(d.m[i], "p")
+				out = append(out, d)
+				d = c10Clone(c)
+				d.ctx = "can"
+				for j := range d.m {
+					d.m[j] = []string{"y"}
+				}
+				d.m[r.Intn(n)] = []string{"x"}
+				out = append(out, d)
+				d = c10Clone(c)
+				d.ctx, d.gx = "can", r.Intn(n+1)
+				for j := range d.m {
+					d.m[j] = []string{"y"}
+				}
+				out = append(out, d)
+			}
+			d := c10Clone(c)
+			d.ctx = "pre"
+			for j := range d.m {
+				d.m[j] = []string{"y"}
+			}
+			out = append(out, d)
+		}
+	}
+	// the default worker count: exactly 16 mappers at once, never 17 (no WithWorkers option, or WithWorkers(16) last)
+	for _, n := range []int{15, 16, 17, 18} {
+		for _, api := range []string{"mr", "each", "chan"} {
+			c := mk(api, n, 16)
+			c.ws = r.PickS("def", "def", "3,16")
+			first := n
+			if first > 16 {
+				first = 16
+			}
+			for j := 0; j < n; j++ {
+				c.m[j] = []string{"w" + it(r.Range(1, 9))}
+				if j < first {
+					c.m[j] = append(c.m[j], "us"+it(first-1))
+					if n > 16 {
+						c.m[j] = append(c.m[j], "ts16")
+					}
+				}
+			}
+			if api != "each" {
+				c.r = []string{"a", "w" + it(r.Range(10, 99))}
+			}
+			out = append(out, c)
+		}
+	}
+	// more functions than defaultWorkers: Finish / FinishVoid must still run all of them at once
+	for _, api := range []string{"finish", "finishvoid"} {
+		n := r.Range(17, 19)
+		c := mk(api, n, n)
+		for i := 0; i < n; i++ {
+			c.m[i] = []string{"us" + it(n-1)}
+		}
+		out = append(out, c)
+	}
+	// a call with few workers, then calls without WithWorkers that need more than that at once (options must not
+	// leak from one call into the next), and nested calls from inside mappers / the reducer of a 1-worker call
+	for _, wfirst := range []string{"1", "0", "-4", "2"} {
+		c := mk("mr", 2, 1)
+		c.ws = wfirst
+		if wfirst == "2" {
+			c.w = 2
+		}
+		c.m[0], c.m[1] = []string{"w1"}, []string{"w2"}
+		c.r = []string{"a", "w7"}
+		out = append(out, c)
+		d := mk(r.PickS("mr", "each", "chan"), 4, 16)
+		d.ws = "def"
+		for j := 0; j < 4; j++ {
+			d.m[j] = []string{"us3", "w" + it(j+1)}
+		}
+		if d.api != "each" {
+			d.r = []string{"a", "w7"}
+		}
+		out = append(out, d)
+		e := mk("mr", 2, 1)
+		e.ws = wfirst
+		if wfirst == "2" {
+			e.w = 2
+		}
+		e.m[0], e.m[1] = []string{"f", "w1"}, []string{"w2", "f"}
+		e.r = []string{"a", "f", "w7"}
+		out = append(out, e)
+	}
+	return out
 }
 
 func c10Plain(r *verifh.Rng, n, w int) c10Cfg {
@@ -1078,6 +1494,22 @@ func c10Gen(r *verifh.Rng) []verifh.Section {
 	for i := verifh.Scale(500, 40000); i > 0; i-- {
 		lines = append(lines, c10Random(r).String())
 	}
+	// the same calls through other routes of the glue (option lists, clamped / default worker counts, MapReduceChan)
+	{
+		r3 := r.Fork()
+		for i := range lines {
+			if r3.Chance(1, 3) {
+				if c, ok := c10ParseLine(lines[i]); ok {
+					lines[i] = c10Vary(r3, c).String()
+				}
+			}
+		}
+	}
+	for rep := verifh.Scale(1, 6); rep > 0; rep-- {
+		for _, c := range c10Entries(r) {
+			lines = append(lines, c10Vary(r, c).String())
+		}
+	}
 	// ForEach: plain and with a panicking item
 	for i := verifh.Scale(10, 200); i > 0; i-- {
 		w := r.Range(1, 4)
@@ -1103,6 +1535,40 @@ func c10Gen(r *verifh.Rng) []verifh.Section {
 		secs = append(secs, verifh.Section{Cfg: fmt.Sprintf("batch=%d", i/per), Ops: lines[i:j]})
 	}
 	return secs
+}
+
+// c10ParseLine reads a generated line back into a configuration (generation only).
+func c10ParseLine(line string) (c10Cfg, bool) {
+	f := strings.Fields(line)
+	if len(f) == 0 || f[0] != "run" {
+		return c10Cfg{}, false
+	}
+	cfg := verifh.ParseCfg(strings.Join(f[1:], " "))
+	c := c10Cfg{api: cfg.Str("api", "mr"), n: cfg.Int("n", 0), ctx: cfg.Str("ctx", "none"), gp: -1, gx: -1}
+	ws := cfg.Str("w", "1")
+	if _, err := strconv.Atoi(ws); err != nil {
+		return c10Cfg{}, false
+	}
+	c.w = verifh.Atoi(ws)
+	if v := cfg.Str("gp", "-"); v != "-" {
+		c.gp = verifh.Atoi(v)
+	}
+	if v := cfg.Str("gx", "-"); v != "-" {
+		c.gx = verifh.Atoi(v)
+	}
+	if v := cfg.Str("gw", "-"); v != "-" {
+		c.gw = strings.Split(v, ",")
+	}
+	if c.n > 0 {
+		for _, p := range strings.Split(cfg.Str("m", ""), "/") {
+			c.m = append(c.m, c10Script(p))
+		}
+		if len(c.m) != c.n {
+			return c10Cfg{}, false
+		}
+	}
+	c.r = c10Script(cfg.Str("r", "-"))
+	return c, true
 }
 
 func TestVerifC10(t *testing.T) {
